@@ -26,12 +26,11 @@ Qed.
 (* the flags only loosen the release guard *)
 Definition dev_le (d d' : devs) : Prop :=
   (dev_R2 d = true -> dev_R2 d' = true) /\ (dev_R3 d = true -> dev_R3 d' = true)
-  /\ (dev_R5 d = true -> dev_R5 d' = true) /\ (dev_R6 d = true -> dev_R6 d' = true)
-  /\ (dev_R7 d = true -> dev_R7 d' = true).
+  /\ (dev_R5 d = true -> dev_R5 d' = true) /\ (dev_R6 d = true -> dev_R6 d' = true).
 
 Lemma excused_mono d d' sh I o : dev_le d d' -> excused d sh I o = true -> excused d' sh I o = true.
 Proof.
-  intros (H2 & H3 & H5 & H6 & _). unfold excused. destruct (is_check_action o); [exact H2|].
+  intros (H2 & H3 & H5 & H6). unfold excused. destruct (is_check_action o); [exact H2|].
   destruct (block_of_obj o) as [b|]; [|auto]. intro H.
   apply orb_true_iff in H as [H|H]; [apply orb_true_iff in H as [H|H]|].
   - apply andb_true_iff in H as [H Hc]. apply andb_true_iff in H as [H Hb]. rewrite (H3 H), Hb, Hc. reflexivity.
